@@ -61,6 +61,10 @@ func (g *gen) c11Payloads() [][]Val {
 		{{K: "struct", I: 3, S: Str(tok + g.payload())}},
 		{{K: "stringer", ID: 900, R: Str(tok + "P:" + g.payload() + ";")}},
 		{{K: "nilpanic"}},
+		// a payload that is a redactable string (its safe parts stay safe), and
+		// one that is a SafeFormatter: rendered as they render on their own
+		{{K: "rs", S: Str("rsafe " + mStart + "runsafe" + mEnd + ".")}},
+		{{K: "safefmt", ID: 902, P: []Step{{A: "ss", S: "ps"}, {A: "us", S: "pu"}, {A: "ss", S: "."}}}},
 	}
 }
 
@@ -116,7 +120,10 @@ func (g *gen) c11Base(hook bool) []Op {
 	// C05's business, so the combination is not generated here)
 	if g.chance(0.3) && wrapped.K != "safe" && wrapped.K != "unsafe" && spec.kind != "regsafe" {
 		inContainer = true
-		switch g.r.Intn(3) {
+		switch g.r.Intn(4) {
+		case 3:
+			// the target is a map KEY
+			arg = Val{K: "kmap", V: []Val{wrapped}}
 		case 0:
 			arg = Val{K: "slice", V: []Val{g.simple(), wrapped, g.simple()}}
 		case 1:
